@@ -491,6 +491,31 @@ func (n *Node) monBalance(before *accountant.VerifSnapshot, addr string, budget 
 			okSome = true
 		}
 	}
+	// single tip: the answer is the wallet's exact balance over ALL confirmed vertices, checkpointed ones included -
+	// recomputed here from the stored vertices themselves, not from the implementation's funds store
+	if len(before.Leaves) == 1 && len(before.StoredVertices) > 0 && addr != before.Genesis {
+		net := new(big.Int)
+		for i := range before.StoredVertices {
+			sv := &before.StoredVertices[i]
+			if !sv.Transaction.IsSpiceTransfer() {
+				continue
+			}
+			if sv.Transaction.IssuerAddress == addr {
+				net.Sub(net, valBig(sv.Transaction.Spice))
+			}
+			if sv.Transaction.ReceiverAddress == addr {
+				net.Add(net, valBig(sv.Transaction.Spice))
+			}
+		}
+		if net.Sign() >= 0 { // a wallet overdrawn below the cut is the C07 known finding
+			in, out := flows(addr, vw.history(before.Leaves[0]))
+			d := new(big.Int).Add(net, new(big.Int).Sub(in, out))
+			n.stats["c06.balance_checked_against_all_confirmed"]++
+			if d.Sign() >= 0 && d.Cmp(limitBig) < 0 && (err != nil || valBig(got).Cmp(d) != 0) {
+				n.violate("C06", "balance-not-exact-over-confirmed", fmt.Sprintf("single tip: balance of %d reported %v (err %v); checkpointed vertices + live history give %s", n.w.A(addr), got, err, d))
+			}
+		}
+	}
 	n.stats["c06.balance_checked"]++
 	if len(before.Leaves) > 1 {
 		n.stats["c06.balance_multi_tip"]++
